@@ -275,5 +275,69 @@ def run(E: Engine, rep: Report, tier: str) -> dict:
     rep.check("define_register(" in src and "qubit_ids=" in src, "MAP", "MappableRegister.build_register|via-define_register", "traps resolved through layout.define_register (canonical trap ids)", "build_register no longer goes through layout.define_register", E.where(br))
     cq = E.method("pulser.sequence.sequence.Sequence", "_check_qubits_give_ids")
     rep.check("self._register.qubit_ids[int(index)]" in norm(cq.node), "MAP", "Sequence._check_qubits_give_ids|index-against-declared-order", "index-based targeting resolves against the register's qubit order", "index-based targeting no longer indexes register.qubit_ids", E.where(cq))
-    rep.floor("MAP", 3)
+    # trap ids index the canonical coordinate array: every id must be validated on *both* sides before
+    # (a negative id wraps around in numpy, so an upper-bound-only test accepts ids that are not trap ids)
+    from .. import sym as _sym
+    from .symutil import S as _S, sh as _sh, mentions as _mentions
+
+    dr = E.method("pulser.register.register_layout.RegisterLayout", "define_register")
+    rets = [l for l in _S(E, dr).logged("return") if l.value is not None]
+    if not rets:
+        raise AnalysisError("anchor: RegisterLayout.define_register has no return")
+    for i_, l in enumerate(rets):
+        lits = _sym.conj_of(l.cond)
+        member = [x for x in lits if x[0] != "not" and (_mentions(x, "traps_dict") or _mentions(x, "range")) and _mentions(x, "trap_ids")]
+        ordering = [c for x in lits for c in _sym.subterms(x) if c[0] == "cmp" and c[1] in ("Lt", "LtE", "Gt", "GtE") and (_mentions(x, "trap_ids"))]
+        upper = [c for c in ordering if _mentions(c, "number_of_traps") or _mentions(c, "len")]
+        lower = [c for c in ordering if ("const", 0) in (c[2], c[3]) or ("const", -1) in (c[2], c[3])]
+        ok = bool(member) or (bool(upper) and bool(lower))
+        why = "membership in the layout's trap ids" if member else "two-sided range test" if ok else ""
+        rep.check(ok, "MAP", f"RegisterLayout.define_register|trap-ids-validated-on-both-sides|return{i_}", f"the register is built only after {why}",
+                  f"define_register builds the register under `{_sh(l.cond, 160)}`: " + ("the ids are only bounded from above -- a negative id passes and wraps around in the coordinate array (the register then sits on a trap whose id it does not carry)" if upper else "no validation of the trap ids against the layout's ids remains on this path"), E.where(dr, l.node))
+    rep.floor("MAP", 4)
+    # ALIAS: the canonical coordinate arrays are cached on (frozen) objects; a public accessor that returns such an
+    # array itself -- through view-preserving wrappers only -- hands out a mutable reference to the storage that
+    # decides trap numbering, equality and hash
+    from .symutil import unobj as _unobj
+
+    def _view_root(t):
+        while True:
+            t = _unobj(t)
+            if t[0] == "call" and t[1][0] == "attr" and t[1][2] in ("as_array", "view", "reshape", "squeeze", "ravel", "transpose"):
+                t = t[1][1]
+                continue
+            if t[0] == "call" and t[1][0] == "attr" and t[1][1] in (("name", "np"), ("name", "numpy")) and t[1][2] in ("asarray", "asanyarray", "atleast_2d") and t[2]:
+                t = t[2][0]
+                continue
+            if t[0] == "attr" and t[2] == "T":
+                t = t[1]
+                continue
+            return t
+
+    storage: set = set()
+    reg_classes = [c for c in P.classes.values() if c.module.name.startswith("pulser.register")]
+    for c in reg_classes:
+        for nm_, fs_ in c.methods.items():
+            for f_ in fs_:
+                if f_.kind == "cached_property" and nm_.startswith("_") and f_.node.returns is not None and any(k in norm(f_.node.returns) for k in ("AbstractArray", "ndarray")):
+                    storage.add(nm_)
+    if not {"_sorted_coords", "_coords_arr"} <= storage:
+        raise AnalysisError(f"anchor: cached coordinate arrays not found (got {sorted(storage)})")
+    n_alias = 0
+    for c in reg_classes:
+        for nm_, fs_ in c.methods.items():
+            if nm_.startswith("_"):
+                continue
+            for f_ in fs_:
+                if f_.kind in ("overload", "setter"):
+                    continue
+                for l in _S(E, f_, inline=False).logged("return"):
+                    if l.value is None or not any(t[0] == "attr" and t[1] == ("name", "self") and t[2] in storage for t in _sym.subterms(l.value)):
+                        continue
+                    n_alias += 1
+                    root = _view_root(l.value)
+                    aliased = root[0] == "attr" and root[1] == ("name", "self") and root[2] in storage
+                    rep.check(not aliased, "ALIAS", f"{f_.short}|returns-no-reference-to-cached-coordinates", "the returned array is a copy / a new array, not the cached storage",
+                              f"{f_.short} returns `{_sh(l.value, 80)}`, i.e. the cached array `self.{root[2] if aliased else '?'}` itself (as_array/asarray do not copy): editing the result in place changes the object's canonical coordinates, and with them trap numbering, ==, hash and weights", E.where(f_, l.node))
+    rep.floor("ALIAS", 3)
     return {"derived_statuses": derived, "sinks": n_sinks, "roundings": n_round}
